@@ -65,13 +65,14 @@ type tcase struct {
 	IP        string          `json:"ip"`
 	Port      int             `json:"port"`
 	// observations
-	Obs      int      `json:"obs"`
-	Err      string   `json:"err"`
-	DurMS    float64  `json:"dur_ms"`
-	Reqs     []string `json:"reqs"`
-	Rec      *rec     `json:"rec"`
-	JitterMS float64  `json:"jitter_ms"` // largest scheduling overshoot of a 5 ms sleep while the case ran
-	Tries    int      `json:"tries"`
+	Obs         int      `json:"obs"`
+	Err         string   `json:"err"`
+	DurMS       float64  `json:"dur_ms"`
+	Reqs        []string `json:"reqs"`
+	Rec         *rec     `json:"rec"`
+	JitterMS    float64  `json:"jitter_ms"`    // largest scheduling overshoot of a 5 ms sleep while the case ran
+	CPUSlowdown float64  `json:"cpu_slowdown"` // wall / CPU time of a 2 ms burn: 1.0 when quiet (see jitter.go)
+	Tries       int      `json:"tries"`
 	// end-to-end: run this sx binary (`sx elastic|docker --proto S -p PORT IP/32 --json -t <timeout>ms`)
 	E2E    string `json:"e2e,omitempty"`
 	Stderr string `json:"stderr,omitempty"`
@@ -434,7 +435,7 @@ var (
 func runCase(c *tcase) {
 	startJitterMonitor()
 	caseStart := time.Now()
-	defer func() { c.JitterMS = jitterBetween(caseStart, time.Now()) }()
+	defer func() { c.JitterMS, c.CPUSlowdown = loadBetween(caseStart, time.Now()) }()
 	c.Tries++
 	c.Reqs, c.Rec, c.Err = nil, nil, ""
 	ip := net.ParseIP(c.IP)
